@@ -81,7 +81,7 @@ func constDerived(c *Ctx, fn *FuncRef, e ast.Expr, depth int) (bool, string) {
 		}
 		// a variable declared inside the innermost loop that encloses the use starts afresh in every iteration:
 		// only the writes that textually precede the use can reach it
-		if loop := innermostLoop(fn.Decl.Body, x.Pos()); loop != nil && loop.Pos() <= o.Pos() && o.Pos() <= loop.End() || innermostLoop(fn.Decl.Body, x.Pos()) == nil {
+		if loop := innermostLoop(fn.Decl.Body, x.Pos()); loop != nil && defIdentIn(info, loop, o) != nil || innermostLoop(fn.Decl.Body, x.Pos()) == nil {
 			var before []writeSite
 			for _, w := range ws {
 				if (w.expr != nil && w.expr.End() <= x.Pos()) || (w.expr == nil && w.pos < x.Pos()) {
